@@ -340,6 +340,54 @@ func init() {
 				})
 			})
 		}
+		// size families: wide / deep / many-root trees; state = everything present, minus one node path, plus one extra entry
+		for size := 2; size <= 40 && !c.Expired(); size++ {
+			if !c.Take() {
+				continue
+			}
+			var dw, dc, dr []int
+			var nw, nc, nr []string
+			dw, nw = append(dw, 1), append(nw, "wide")
+			for i := 0; i < size; i++ {
+				dw = append(dw, 2)
+				nw = append(nw, fmt.Sprintf("d%02d", i))
+				dc = append(dc, i+1)
+				nc = append(nc, fmt.Sprintf("n%02d", i))
+				dr = append(dr, 1, 2)
+				nr = append(nr, fmt.Sprintf("root%02d", i), "k")
+			}
+			for _, t := range []struct {
+				d []int
+				n []string
+			}{{dw, nw}, {dc, nc}, {dr, nr}} {
+				f := model.Merge(enum.Build(t.d, t.n))
+				var all []string
+				for _, rt := range f {
+					all = append(all, model.Paths(rt)...)
+				}
+				full := map[string]byte{}
+				for _, p := range all {
+					full[p] = 'd'
+				}
+				c.StateN(1)
+				c.Nontrivial()
+				for _, strict := range []bool{false, true} {
+					c08Case(c, c08Replay{Kind: "c08", Depth: t.d, Names: t.n, State: full, Strict: strict, Form: "abs", Route: "md"})
+					// the last path missing; an extra directory below the last-but-one node
+					st := map[string]byte{}
+					for _, p := range all[:len(all)-1] {
+						st[p] = 'd'
+					}
+					c08Case(c, c08Replay{Kind: "c08", Depth: t.d, Names: t.n, State: st, Strict: strict, Form: "abs", Route: "md"})
+					st2 := map[string]byte{}
+					for _, p := range all {
+						st2[p] = 'd'
+					}
+					st2[all[len(all)/2]+"/_extra"] = 'd'
+					c08Case(c, c08Replay{Kind: "c08", Depth: t.d, Names: t.n, State: st2, Strict: strict, Form: "abs", Route: "md"})
+				}
+			}
+		}
 		// histories: Mkdir(A, exts) then Verify(B), all pairs of trees n <= 3 over {a, b.go}
 		type tr struct {
 			d     []int
